@@ -103,7 +103,10 @@ static CO_ERR COTParaRestoreWrite(struct CO_OBJ_T *obj, struct CO_NODE_T *node, 
     if (CO_GET_SUB(obj->Key) == 0) {
         result = uint8->Write(obj, node, buffer, size);
     } else {
-        /* check restore signature */
+        /* check restore signature: all four bytes must be given */
+        if (size != 4u) {
+            return (CO_ERR_TYPE_WR);
+        }
         value = *((uint32_t *)buffer);
         if (value != CO_PARA_RESTORE_SIG) {
             return (CO_ERR_TYPE_WR);
